@@ -465,22 +465,132 @@ func TestVerifC05(t *testing.T) {
 			tokenlessCarriers(res, srv, root.Split("tl"), vlib.Scale(40, 400))
 		}
 	}()
+	// carriers that present a ClientID of their own and then stay attached, silent,
+	// for longer than the server's retention (1 min + sweep): nothing is ever
+	// addressed to their ClientID, so every byte that reaches them belongs to
+	// somebody else. A second wave of brand-new sessions starts after that time.
+	lingerSrv := make(chan *e2eServer, 1)
+	lingerDone := make(chan []*lingerer, 1)
+	go func() {
+		srv := <-lingerSrv
+		if srv == nil {
+			lingerDone <- nil
+			return
+		}
+		lingerDone <- openLingerers(res, srv, root.Split("linger"), 6)
+	}()
+	started2 := make(chan *e2eServer, 2)
+	go func() {
+		srv := <-started2
+		started <- srv
+		lingerSrv <- srv
+	}()
+	tLinger := time.Now()
 	// all sessions at once
 	log.SetOutput(ioutil.Discard)
-	run = runSessionsNotify(res, plans, time.Duration(vlib.Scale(480, 1200))*time.Second, len(plans), started)
+	run = runSessionsNotify(res, plans, time.Duration(vlib.Scale(480, 1200))*time.Second, len(plans), started2)
 	twg.Wait()
 	if run == nil {
 		res.Require(false, "server started")
 		return
 	}
 	run.judge("C05")
+	if ls := <-lingerDone; ls != nil {
+		// 60 s idle + at most 30 s until the next sweep, plus slack
+		if d := 100*time.Second - time.Since(tLinger); d > 0 {
+			time.Sleep(d)
+		}
+		var plans2 []*sessionPlan
+		for i := 0; i < 12; i++ {
+			r := root.SplitN("wave2", i)
+			p := &sessionPlan{Tag: r.Uint64() | 1, LenUp: uint64(r.Range(1000, 60000)), LenDown: uint64(r.Range(20000, 200000))}
+			p.IPs = sessionIPs(r, i, false)
+			plans2 = append(plans2, p)
+		}
+		run2 := runSessionsOn(res, run.srv, plans2, 240*time.Second, len(plans2))
+		if run2 != nil {
+			run2.judge("C05")
+		}
+		for _, l := range ls {
+			n, closed := l.stop()
+			res.Obs("lingering_carriers", 1)
+			if closed {
+				res.Obs("lingering_carriers_closed_by_server_after_expiry", 1)
+			}
+			if n > 0 {
+				res.Violate("c05:packet-written-to-carrier-of-another-client-id:lingering-carrier", fmt.Sprintf("a carrier that presented ClientID %x, sent nothing else and stayed attached for %v received %d bytes: no session of that ClientID exists, the bytes were addressed to another client", l.id, time.Since(tLinger).Round(time.Second), n), map[string]interface{}{"case": fmt.Sprintf("linger/%x", l.id), "client_id": fmt.Sprintf("%x", l.id), "bytes_received": n, "first_bytes": fmt.Sprintf("%x", l.first)})
+			}
+		}
+	}
 	res.RequireObs("sessions_completed", int64(len(plans)*9/10))
 	res.RequireObs("carriers_used", int64(len(plans)*6))
 	res.RequireObs("double_carriers", 1)
 	res.RequireObs("downstream_packets_checked_by_tap", 1000)
+	res.RequireObs("lingering_carriers", 4)
 	res.RequireObs("tokenless_carriers_closed_by_server", 5)
 	res.RequireObs("tokenless_carriers_short", 1)
 	res.RequireObs("tokenless_carriers_token-then-partial-id", 1)
+}
+
+// lingerer: a carrier with a ClientID of its own that only listens.
+type lingerer struct {
+	id     turbotunnel.ClientID
+	conn   net.Conn
+	mu     sync.Mutex
+	n      int
+	first  []byte
+	closed bool
+	done   chan struct{}
+}
+
+func (l *lingerer) stop() (int, bool) {
+	l.mu.Lock()
+	closed := l.closed
+	l.mu.Unlock()
+	l.conn.Close()
+	<-l.done
+	l.mu.Lock()
+	defer l.mu.Unlock()
+	return l.n, closed
+}
+
+func openLingerers(res *vlib.Result, srv *e2eServer, r *vlib.Rand, k int) []*lingerer {
+	var out []*lingerer
+	for i := 0; i < k; i++ {
+		u := url.URL{Scheme: "ws", Host: srv.addr, Path: "/", RawQuery: fmt.Sprintf("client_ip=198.51.100.%d", 10+i)}
+		ws, _, err := websocket.DefaultDialer.Dial(u.String(), nil)
+		if err != nil {
+			res.Inconcl("lingering carrier dial: " + err.Error())
+			continue
+		}
+		conn := websocketconn.New(ws)
+		l := &lingerer{conn: conn, done: make(chan struct{})}
+		copy(l.id[:], r.SplitN("id", i).Bytes(8))
+		conn.Write(turbotunnel.Token[:])
+		conn.Write(l.id[:])
+		go func() {
+			defer close(l.done)
+			buf := make([]byte, 4096)
+			for {
+				n, err := conn.Read(buf)
+				l.mu.Lock()
+				if n > 0 {
+					if len(l.first) < 64 {
+						l.first = append(l.first, buf[:n]...)
+					}
+					l.n += n
+				}
+				if err != nil {
+					l.closed = true
+					l.mu.Unlock()
+					return
+				}
+				l.mu.Unlock()
+			}
+		}()
+		out = append(out, l)
+	}
+	return out
 }
 
 func runSessionsNotify(res *vlib.Result, plans []*sessionPlan, deadline time.Duration, parallel int, started chan *e2eServer) *e2eRun {
